@@ -15,7 +15,7 @@ import (
 	"github.com/bloxapp/ssv/zz_verif/lib/hx"
 )
 
-var witnessFlag = flag.String("w", "", "witness set: round0 | fulldata | slotwrap | partialslot | partiallate | unserved | epochs | honestrun")
+var witnessFlag = flag.String("w", "", "witness set: round0 | fulldata | slotwrap | partialslot | partiallate | unserved | epochs | enr | honestrun")
 
 func genWitnesses(run *hx.Run, r *hx.Rng) {
 	w := world(4)
@@ -144,6 +144,29 @@ func genWitnesses(run *hx.Run, r *hx.Rng) {
 				c.ValidateSSV(kitSSV(w, role, m), w.SlotStart(slot).Add(5*time.Second), Env{Mode: "n"}, "c10:witness-epochs")
 			}
 		}
+	case "enr":
+		// the defect repaired by aac5f5f72: a `domaintype` entry shorter than four bytes in a discovered peer's node record
+		// (empty string, 1..3 bytes, small integers) made DomainTypeEntry.DecodeRLP panic; plus the neighbouring cases
+		for _, l := range []int{0, 1, 2, 3, 4, 5, 32} {
+			b := make([]byte, l)
+			for i := range b {
+				b[i] = byte(0xa0 + i)
+			}
+			doEntry(run, "domaintype", rlpStr(b), true)
+		}
+		for _, raw := range [][]byte{{0x05}, {0x80}, {0xc0}, {0xc4, 1, 2, 3, 4}} {
+			doEntry(run, "domaintype", raw, true)
+		}
+		doEntry(run, "domaintype", nil, false)
+		for _, l := range []int{0, 1, 15, 16, 17, 40} {
+			b := make([]byte, l)
+			for i := range b {
+				b[i] = byte(0x11 * (i%15 + 1))
+			}
+			doEntry(run, "subnets", rlpStr(b), true)
+		}
+		doEntry(run, "subnets", []byte{0xc0}, true)
+		doEntry(run, "subnets", nil, false)
 	case "honestrun":
 		// one complete honest run with a prepared round change (C10)
 		t := BuildTrace(w, spectypes.BNRoleAttester, s+2, scenarios[4], r)
